@@ -811,6 +811,68 @@ func Flush(w *load.World, c *core.Collector) {
 			c.Add("FLUSH", key, core.OK, where, "", "C01", "C08", "C10")
 		}
 	}
+	// (e) a vector store is trained (Fit) before it is flushed, never after: Fit decides from the
+	// batch in the cache whether to train the quantiser and re-encodes the points; what it produces
+	// only reaches the bucket through the Flush that follows
+	nFit := 0
+	for _, f := range w.Fns {
+		if !load.InMod(f) || !strings.Contains(load.PkgPath(f), "/shard/index") {
+			continue
+		}
+		var fits, flushes []*ssa.Call
+		for _, b := range f.Blocks {
+			for _, in := range b.Instrs {
+				call, ok := in.(*ssa.Call)
+				if !ok || !call.Call.IsInvoke() || ssax.TypeName(call.Call.Value.Type()) != "vectorstore.VectorStore" {
+					continue
+				}
+				switch call.Call.Method.Name() {
+				case "Fit":
+					fits = append(fits, call)
+				case "Flush":
+					flushes = append(flushes, call)
+				}
+			}
+		}
+		// flushes made by helpers of the package
+		for _, b := range f.Blocks {
+			for _, in := range b.Instrs {
+				if call, ok := in.(*ssa.Call); ok {
+					if g := call.Call.StaticCallee(); g != nil && g != f && load.PkgPath(g) == load.PkgPath(f) {
+						hasFlush, hasFit := callsVectorStore(g, "Flush", 0), callsVectorStore(g, "Fit", 0)
+						switch {
+						case hasFlush && !hasFit:
+							flushes = append(flushes, call)
+						case hasFit && !hasFlush:
+							fits = append(fits, call)
+						}
+					}
+				}
+			}
+		}
+		if len(fits) == 0 {
+			continue
+		}
+		nFit++
+		key := "fit-before-flush:" + load.FnKey(f)
+		bad := ""
+		for _, fit := range fits {
+			for _, fl := range flushes {
+				if fl.Block() == fit.Block() && ssax.Precedes(fl, fit) || fl.Block() != fit.Block() && ssax.Reaches(fl.Block(), fit.Block()) && !ssax.Reaches(fit.Block(), fl.Block()) {
+					bad = w.At(fl)
+				}
+			}
+		}
+		if bad != "" {
+			c.Add("FLUSH", key, core.Violation, bad, "the vector store is flushed before it is trained: the quantiser parameters and codes computed by Fit for this batch are not written, a cold cache later reads points that were never encoded", "C04", "C08")
+		} else {
+			c.Add("FLUSH", key, core.OK, w.At(fits[0]), "", "C04", "C08")
+		}
+	}
+	c.Count("vector_store_fits", nFit)
+	if nFit < 2 {
+		c.Add("FLUSH", "anchor:fits", core.Undecided, "", fmt.Sprintf("found %d index functions that train their vector store, expected at least 2", nFit), "C04", "C08")
+	}
 }
 
 // -------------------------------------------------------------------- DIRTY
@@ -1501,4 +1563,22 @@ func helperKeyShape(v ssa.Value) (string, bool) {
 		return "", false
 	}
 	return shape, true
+}
+
+func callsVectorStore(g *ssa.Function, method string, depth int) bool {
+	for _, b := range g.Blocks {
+		for _, in := range b.Instrs {
+			call, ok := in.(*ssa.Call)
+			if !ok {
+				continue
+			}
+			if call.Call.IsInvoke() && ssax.TypeName(call.Call.Value.Type()) == "vectorstore.VectorStore" && call.Call.Method.Name() == method {
+				return true
+			}
+			if h := call.Call.StaticCallee(); h != nil && depth < 2 && h != g && load.PkgPath(h) == load.PkgPath(g) && callsVectorStore(h, method, depth+1) {
+				return true
+			}
+		}
+	}
+	return false
 }
